@@ -67,6 +67,9 @@ func Gen(seed int64, label string, k int, realTime bool) *Scenario {
 				sc.Bytes[d] = 100000
 			}
 		}
+		if r.Chance(1, 4) {
+			sc.Faults[d].RefusePct = 1 + r.Intn(3)
+		}
 	}
 	// initial sequence numbers: random, or placed so that the stream crosses 2^31 / 2^32
 	place := func(total int) *uint32 {
